@@ -49,7 +49,7 @@ def limit_df(df, fs, start=None, stop=None, reset_indices=True):
     """
 
     # Ensure arguments are within valid range
-    check_param_range(fs, 'fs', (0, np.inf))
+    check_param_range(fs, 'fs', (np.finfo(float).tiny, np.inf))      # strictly positive
     if start is not None:
         check_param_range(start, 'start', (0, np.inf if stop is None else stop))
     if stop is not None:
